@@ -218,7 +218,7 @@ func serializeString(buf *bytes.Buffer, s string) {
 
 func serializeCaseSensitiveString(buf *bytes.Buffer, s string) {
 	buf.Write([]byte{91, 83, 93})
-	buf.WriteString(option.TrimSpace(s))
+	buf.WriteString(s)
 }
 
 func serializeBoolean(buf *bytes.Buffer, b bool) {
